@@ -467,6 +467,61 @@ func ext۰reflect۰Value۰IsNil(fr *frame, args []value) value {
 	}
 }
 
+func ext۰reflect۰Value۰IsZero(fr *frame, args []value) value {
+	// Signature: func (reflect.Value) bool
+	t := rV2T(args[0]).t
+	if t == nil {
+		panic(targetFault("reflect: call of reflect.Value.IsZero on zero Value"))
+	}
+	return isZeroValue(t, rV2V(args[0]))
+}
+
+// isZeroValue reports (possibly symbolically) whether v is the zero value of its type.
+func isZeroValue(t types.Type, v value) value {
+	switch x := v.(type) {
+	case *Sym:
+		switch x.s {
+		case SBool:
+			return symNot(x)
+		case SStr:
+			return &Sym{SBool, app("=", x.e, `""`)}
+		case SFP64:
+			return &Sym{SBool, app("fp.isZero", x.e)}
+		default:
+			return &Sym{SBool, app("=", x.e, bvLit(x.s.width(), 0))}
+		}
+	case structure:
+		st := t.Underlying().(*types.Struct)
+		var r value = true
+		for i := range x {
+			r = valAnd(r, isZeroValue(st.Field(i).Type(), x[i]))
+		}
+		return r
+	case array:
+		et := t.Underlying().(*types.Array).Elem()
+		var r value = true
+		for i := range x {
+			r = valAnd(r, isZeroValue(et, x[i]))
+		}
+		return r
+	case iface:
+		return x.t == nil
+	case *value:
+		return x == nil
+	case *omap:
+		return x == nil
+	case []value:
+		return x == nil
+	case *Chan:
+		return x == nil
+	case *ssa.Function:
+		return x == nil
+	case *closure:
+		return x == nil
+	}
+	return equals(t, v, zero(t))
+}
+
 func ext۰reflect۰Value۰IsValid(fr *frame, args []value) value {
 	// Signature: func (reflect.Value) bool
 	return rV2V(args[0]) != nil
